@@ -280,12 +280,39 @@ def cell_invariants(res, ls, k, time, data, volume, where):
     return True
 
 
-def daughters_ok(ls, P, Vp, D1, V1, D2, V2):
-    """Is (D1, D2) a valid partition of the mother's last row under at least one of the model's division mechanisms?"""
+def mechanism_possible(ls, di, age, V_first, V_last):
+    """Could division mechanism di have fired for a mother of this age and volume?  (Events and noisy thresholds always
+    could; a noise-free rule only once its threshold is reached.)"""
+    d = ls["division"][di]
+    if d["kind"] == "event" or "noise" in d["params"]:
+        return True
+    P = ls["base"]["params"]
+
+    def val(x):
+        return float(P[x]) if isinstance(x, str) else float(x)
+    eps = 1e-7
+    if d["type"] == "time":
+        return age >= val(d["params"]["threshold"]) - eps
+    if d["type"] == "volume":
+        return V_last >= val(d["params"]["threshold"]) - eps
+    if d["type"] == "deltaV":
+        return V_last - V_first >= val(d["params"]["threshold"]) - eps
+    if d["type"] == "general":
+        pname = d["params"]["equation"].split("-")[1].strip()
+        return V_last > val(pname) - eps
+    return True
+
+
+def daughters_ok(ls, P, Vp, D1, V1, D2, V2, age=None, V_first=None):
+    """Is (D1, D2) a valid partition of the mother's last row under one of the division mechanisms that can have fired
+    (judged from the mother's age and volume)?"""
     names = ls["base"]["species"]
     skip = rule_targets(ls)
     reasons = []
     for di in range(len(ls["division"])):
+        if age is not None and not mechanism_possible(ls, di, age, V_first, Vp):
+            reasons.append(f"mechanism {di} ({ls['division'][di]['type']}) cannot have fired: age {age}, volume {V_first} -> {Vp}")
+            continue
         modes, vmode = lingen.species_modes(ls, di)
         ok = True
         if vmode == "duplicate":
@@ -363,7 +390,8 @@ def check_lineage(case):
                              daughter_first=float(dd["time"][0]))
                     return res
             ok, reasons = daughters_ok(ls, r["data"][-1], float(r["volume"][-1]), a["data"][0], float(a["volume"][0]),
-                                       b["data"][0], float(b["volume"][0]))
+                                       b["data"][0], float(b["volume"][0]), age=float(r["time"][-1] - r["time"][0]),
+                                       V_first=float(r["volume"][0]))
             if not ok:
                 res.fail(("daughters_not_a_partition_of_mother",), cell=k, mother=[float(x) for x in r["data"][-1]],
                          mother_volume=float(r["volume"][-1]), d1=[float(x) for x in a["data"][0]],
